@@ -329,8 +329,9 @@ def stepsTo (n : Nat) : Horizon := (List.range n).map (fun (i : Nat) => (i : Int
 
 /-- OnlineEnsembleForecaster(forecasters, ensemble_algorithm = A).  `fit` does not touch the algorithm
 (its weights persist over refits); `update` with a non-empty batch first shows the algorithm the
-members' forecasts for the steps 1…len(batch) — AFTER `_update_y_X` has moved the members' cutoffs
-to the end of the batch (since /repo dabf16c; see findings) — and then updates the members;
+members' forecasts for the steps 1…len(batch) — `fixed = true` (current /repo): made before the
+cutoffs move; `fixed = false`: after `_update_y_X` has moved the members' cutoffs to the end of the
+batch (the defect between /repo dabf16c and d4b430a) — and then updates the members;
 `predict` = Σ weightᵢ · forecastᵢ with the weights the algorithm holds at that moment. -/
 def onlineEnsembleG (fixed : Bool) (A : Weigher) (names : List String) (Fs : List Forecaster) : Forecaster where
   S := Base × Option (States Fs) × A.S
@@ -367,11 +368,11 @@ def onlineEnsembleG (fixed : Bool) (A : Weigher) (names : List String) (Fs : Lis
   cutoff := fun (b, _, _) => b.cutoff
   setCutoff := fun (b, ss?, a) c => ({ b with cutoff := c }, ss?.map (fun ss => setCutoffAll Fs ss c), a)
 
-/-- the online ensemble of the current /repo tree (`fixed = true`: the proposed repair
-findings/C09-online-update-learns-before-moving-cutoff.patch, where the algorithm is shown the members'
-forecasts made BEFORE the cutoffs are moved, i.e. forecasts for the labels of the new batch) -/
+/-- the online ensemble of the current /repo tree (since commit d4b430a the algorithm is shown the
+members' forecasts made BEFORE the cutoffs are moved, i.e. forecasts for the labels of the new batch;
+`onlineEnsembleG false` is the behaviour between dabf16c and d4b430a, kept as a record) -/
 def onlineEnsemble (A : Weigher) (names : List String) (Fs : List Forecaster) : Forecaster :=
-  onlineEnsembleG false A names Fs
+  onlineEnsembleG true A names Fs
 
 /-- a weighting algorithm replayed from a tape: the weights the REAL algorithm held after each of its
 updates (its arithmetic — NNLS, root finding — is a library black box, fed back as data) -/
